@@ -641,6 +641,39 @@ func c05Multi(r *core.Run) {
 				if err == nil {
 					return core.F("accepted-invalid", "exh", "multi-iterator %v yields more than %d positions", tu, n)
 				}
+				// a fresh multi-iterator switched to reverse yields, for each tensor, the offsets of its own flat iterator in
+				// reverse; Start on a fresh one delivers the first position
+				var mr *tensor.MultIterator
+				if o := call(func() error { mr = tensor.MultIteratorFromDense(ts...); mr.SetReverse(); return nil }); o.Class != "ok" {
+					return tagKF(core.F("unexpected-refusal", "rev", "MultIteratorFromDense(%v).SetReverse: %s", tu, o))
+				}
+				for p := n - 1; p >= 0; p-- {
+					var err error
+					oc := call(func() error { _, err = mr.Next(); return nil })
+					r.Op(1)
+					if oc.Class != "ok" || err != nil {
+						return tagKF(core.F("unexpected-refusal", "rev", "reversed multi-iterator %v: Next failed at position %d of %d: %v %v", tu, p, n, err, oc.Panic))
+					}
+					for j := range ts {
+						if got := mr.LastIndex(j); got != sims[j].offs[p] {
+							return tagKF(core.F("wrong-value", fmt.Sprintf("rev-p%d-j%d", p, j), "reversed multi-iterator over layouts %v of shape %v: position %d tensor %d (%s) offset %d, its own flat iterator yields %d", tu, shape, p, j, tu[j], got, sims[j].offs[p]))
+						}
+					}
+				}
+				call(func() error { _, err = mr.Next(); return nil })
+				if err == nil {
+					return core.F("accepted-invalid", "rev-exh", "reversed multi-iterator %v yields more than %d positions", tu, n)
+				}
+				var ms *tensor.MultIterator
+				var serr error
+				if o := call(func() error { ms = tensor.MultIteratorFromDense(ts...); _, serr = ms.Start(); return nil }); o.Class != "ok" || serr != nil {
+					return tagKF(core.F("unexpected-refusal", "start", "MultIteratorFromDense(%v).Start: %v %s", tu, serr, o))
+				}
+				for j := range ts {
+					if got := ms.LastIndex(j); got != sims[j].offs[0] {
+						return tagKF(core.F("wrong-value", fmt.Sprintf("start-j%d", j), "multi-iterator %v: Start delivers offset %d for tensor %d, its own flat iterator starts at %d", tu, got, j, sims[j].offs[0]))
+					}
+				}
 				return nil
 			})
 		}
